@@ -47,9 +47,9 @@ Theorem plain_exact_positions : forall lines n minCol,
   new_position_range lines n minCol =
   Ok [mkp (sn_line n) (sn_col n) (sn_col n + slen (sn_value n) - 1)].
 Proof.
-  intros lines n minCol [Hv [Hnn [Hblk [Hanc [[l [pre [post [Hl [El [Hasc Ec]]]]]] Hp]]]]].
+  intros lines n minCol [Hv [Hnn [Hblk [Hanc [Hdq [[l [pre [post [Hl [El [Hasc Ec]]]]]] [Hp _]]]]]]].
   unfold new_position_range. destruct (sn_value n) as [|need rest] eqn:Ev; [contradiction|].
-  unfold npr_entry. rewrite Hblk.
+  unfold npr_entry. rewrite Hblk, Hdq.
   unfold line_at in Hl. destruct (1 <=? sn_line n) eqn:E1; [|discriminate]. apply Z.leb_le in E1.
   replace (sn_line n <=? 0) with false by (symmetry; apply Z.leb_gt; lia).
   assert (Hsk : exists more, skipn (Z.to_nat (sn_line n - 1)) lines = l :: more).
@@ -80,7 +80,7 @@ Proof.
     rewrite Hc0. pose proof (count_leading_space_nonneg (String need rest)).
     replace (count_leading_space (String need rest) <? 0) with false by (symmetry; apply Z.ltb_ge; lia).
     reflexivity. }
-  unfold line_step.
+  unfold line_step, scan.
   rewrite Hlen, Hadj.
   assert (Hdrop : sdrop (Z.to_nat (sn_col n - 1)) l = (String need rest ++ post)%string).
   { subst l. rewrite Ec. replace (Z.to_nat (slen pre + 1 - 1)) with (String.length pre) by (unfold slen; lia).
@@ -150,7 +150,7 @@ Theorem plain_end_to_end : forall lines n minCol a b len,
 Proof.
   intros lines n minCol a b len HL Ha Hab Hb Hlen.
   assert (Hc : 1 <= sn_col n).
-  { destruct HL as [_ [_ [_ [_ [[l [pre [post [_ [_ [_ Ec]]]]]] _]]]]]. pose proof (slen_nonneg pre). lia. }
+  { destruct HL as [_ [_ [_ [_ [_ [[l [pre [post [_ [_ [_ Ec]]]]]] _]]]]]]. pose proof (slen_nonneg pre). lia. }
   eexists. split; [apply plain_exact_positions; exact HL|].
   assert (Hd : diag_positions a b [mkp (sn_line n) (sn_col n) (sn_col n + slen (sn_value n) - 1)] =
                [mkp (sn_line n) (sn_col n + a - 1) (sn_col n + b - 1)]).
